@@ -242,6 +242,13 @@ def inline_temporaries(fnode, expr, depth=4, keep=(), inline_calls=False, inline
     for k in mutated:
         if isinstance(defs.get(k), (ast.List, ast.Dict, ast.Set, ast.ListComp, ast.DictComp)) or (isinstance(defs.get(k), ast.Call) and dotted(defs[k].func) in ("list", "dict", "set")):
             counts[k] = counts.get(k, 0) + 2
+    # a temporary that snapshots an attribute the function later overwrites
+    # (`old_start = self.startInd; self.startInd = ...`) is not a name for the attribute's current value
+    stored_chains = _stored_attribute_chains(fnode)
+    if stored_chains:
+        for k in list(defs):
+            if _reads_stored_chain(defs[k], stored_chains):
+                counts[k] = counts.get(k, 0) + 2
     if inline_consts:
         skip = tuple(t for t in skip if t is not ast.Constant)
     single = {k: v for k, v in defs.items() if counts.get(k) == 1 and k not in params and k not in keep and not isinstance(v, skip)}
@@ -336,6 +343,31 @@ class _Normalise(ast.NodeTransformer):
         return node
 
 
+def _stored_attribute_chains(fnode):
+    """dotted texts of the attribute chains the function assigns to (x.a.b = ..., x.a.b += ...,
+    del x.a.b, for x.a.b in ...)"""
+    out = set()
+    for n in ast.walk(fnode):
+        if isinstance(n, ast.Attribute) and isinstance(n.ctx, (ast.Store, ast.Del)):
+            d = dotted(n)
+            if d:
+                out.add(d)
+    return out
+
+
+def _reads_stored_chain(expr, stored):
+    """does the expression read an attribute chain that is stored to, or one that has a stored
+    chain as a prefix (the object it lives on is replaced)?"""
+    if not stored:
+        return False
+    for x in ast.walk(expr):
+        if isinstance(x, ast.Attribute):
+            d = dotted(x)
+            if d and any(d == s_ or d.startswith(s_ + ".") for s_ in stored):
+                return True
+    return False
+
+
 def _inline_attribute_aliases(tree):
     """`eq = self.meshParent.equilibrium; ... eq.psi(...)`  ->  `... self.meshParent.equilibrium.psi(...)`.
     A local that is assigned exactly once, from a pure attribute chain rooted at a name that the
@@ -365,7 +397,10 @@ def _inline_attribute_aliases(tree):
                     chain = chain.value
                 if isinstance(v, ast.Attribute) and isinstance(chain, ast.Name) and (chain.id == "self" or (chain.id in params and not stores.get(chain.id))):
                     defs[n.targets[0].id] = v
-        single = {k: v for k, v in defs.items() if stores.get(k) == 1 and k not in params}
+        # an attribute the function itself stores to (or a prefix of the aliased chain) is not a
+        # stable thing to alias: `old = self.startInd; self.startInd = ...; use(old)`
+        stored_chains = _stored_attribute_chains(f)
+        single = {k: v for k, v in defs.items() if stores.get(k) == 1 and k not in params and not _reads_stored_chain(v, stored_chains)}
         if not single:
             continue
         import copy
